@@ -8,12 +8,13 @@
 (* kind "proof" events (whole synthetic proofs through ProofReconstruction.validate_step):                            *)
 (*   Refutation  an accepted proof ending in the empty clause => the formulas it assumed (plus the hypotheses left in  *)
 (*               the final theorem) are jointly unsatisfiable                                                         *)
-(* Context rules (refl bind let onepoint sko_ex sko_forall) claim their conclusion under the variable mapping of the  *)
-(* enclosing anchor: their events are recorded but never judged (nt = FALSE).                                         *)
+(* Context rules (refl bind sko_ex sko_forall) claim their conclusion under the variable mapping of the enclosing     *)
+(* anchor: their events are recorded but never judged (nt = FALSE).  onepoint (closed conclusion, no premise used) is  *)
+(* judged as it stands; let (discharges x = s) is judged with the universal closure of the discharged variables.      *)
 (* Divergence (informational): an intended instance of the reference schema was refused by the code; the final       *)
 (* theorem of a proof depends on a formula that was not assumed at top level (a local assumption left its subproof).  *)
 EXTENDS C18_Sem, TraceLib
-ContextRules == {"verit_refl", "verit_bind", "verit_let", "verit_onepoint", "verit_sko_ex", "verit_sko_forall"}
+ContextRules == {"verit_refl", "verit_bind", "verit_sko_ex", "verit_sko_forall"}
 IsProof(e) == e.rule = "proof"
 Judged(e) == e.outcome = "accepted" /\ e.rule \notin ContextRules /\ ~IsProof(e)
 \* the final theorem of an accepted proof:  hyps |- false
@@ -33,6 +34,9 @@ ProofVerdict(e) ==
        [f |-> IF ~EntailedIn(k, ProofPrems(e), ProofGoal(e)) THEN {"Refutation"} ELSE {}, nt |-> k # "none"]
 StepVerdict(e) ==
   IF ~Judged(e) THEN [f |-> {}, nt |-> FALSE]
+  ELSE IF e.rule \in ClosureRules THEN
+       [f |-> (IF ~EntailedStep(e.rule, e.prems, e.result) THEN {"Entailed"} ELSE {}) \cup (IF HypsSubset(e.prems, e.result) THEN {} ELSE {"HypsSubset"}),
+        nt |-> TierStep(e.rule, e.prems, e.result) # "none"]
   ELSE LET k == Tier(e.prems, e.result) IN
        [f |-> (IF ~EntailedIn(k, e.prems, e.result) THEN {"Entailed"} ELSE {}) \cup (IF HypsSubset(e.prems, e.result) THEN {} ELSE {"HypsSubset"}),
         nt |-> k # "none"]
